@@ -20,6 +20,7 @@ Audio recording input and playing output module
 import threading
 import struct
 import array
+from sys import byteorder
 
 # Audiolazy internal imports
 from ._internals import deprecate
@@ -112,20 +113,31 @@ def chunks(seq, size=None, dfmt="f", byte_order=None, padval=0.):
   """
   if size is None:
     size = chunks.size
-  chunk = array.array(dfmt, xrange(size))
+  chunk = array.array(dfmt, [0] * size) # Contents are always overwritten
+  tobytes = getattr(chunk, "tobytes", None) or chunk.tostring # Python 2
+  swap = {"<": "big", ">": "little", "!": "little"}.get(byte_order) == byteorder
+
+  def export(): # Arrays are native: swaps twice to keep filling natively
+    if swap:
+      chunk.byteswap()
+      data = tobytes()
+      chunk.byteswap()
+      return data
+    return tobytes()
+
   idx = 0
 
   for el in seq:
     chunk[idx] = el
     idx += 1
     if idx == size:
-      yield chunk.tostring()
+      yield export()
       idx = 0
 
   if idx != 0:
     for idx in xrange(idx, size):
       chunk[idx] = padval
-    yield chunk.tostring()
+    yield export()
 
 
 class RecStream(Stream):
